@@ -143,9 +143,9 @@ Proof.
       match goal with |- context [U32_LIMIT <=? ?z] => destruct (U32_LIMIT <=? z) end; intros H; inversion H; reflexivity.
 Qed.
 
-Lemma cc_write_facts x b :
+Lemma cc_write_facts x b k :
   cc_ok x -> (sc_st x = AwaitOut \/ sc_st x = SClosed) ->
-  exists y sent, cc_write x b = inl (y, sent) /\ sc_gid y = sc_gid x /\ sc_client y = sc_client x /\
+  exists y sent, cc_write x b k = inl (y, sent) /\ sc_gid y = sc_gid x /\ sc_client y = sc_client x /\
     sc_infl y = sc_infl x /\ sc_out y = sc_out x /\ st_mid y /\ (exists ph, CInv (sc_conn y) ph).
 Proof.
   intros [Hst [ph I]] Hs. unfold cc_write, st_ok in *.
@@ -154,9 +154,11 @@ Proof.
   - destruct Hst as [_ Hp].
     set (offered := match c_rbuf (sc_conn x) with Some b0 => b0
                     | None => match c_rq (sc_conn x) with r :: _ => serialize r | [] => [] end end).
-    set (ev := if b then WWrote (length offered) else WFail).
+    set (n := if Nat.eqb k 0 then length offered else Nat.min k (length offered)).
+    assert (Hn : (n <= length offered)%nat) by (unfold n; destruct (Nat.eqb k 0); lia).
+    set (ev := if b then WWrote n else WFail).
     assert (Hok : wop_ok (sc_conn x) (WTry ev)).
-    { unfold ev. destruct b; [|exact Logic.I]. cbn [wop_ok]. unfold offered.
+    { unfold ev. destruct b; [|exact Logic.I]. cbn [wop_ok]. unfold offered in Hn.
       destruct (c_rbuf (sc_conn x)); [lia|]. destruct (c_rq (sc_conn x)); [exact Logic.I|lia]. }
     pose proof (try_write_no_panic (sc_conn x) ev Hok) as NP.
     pose proof (try_write_parser_same (sc_conn x) ev) as PS.
@@ -304,7 +306,7 @@ Definition evt_ok (w : world) (e : event) : Prop :=
   | EvListener nf => alookup nf (w_conns w) = None
   | EvHup fd => exists x, alookup fd (w_conns w) = Some x
   | EvIn fd => exists x, alookup fd (w_conns w) = Some x /\ sc_out x = false
-  | EvOut fd => exists x, alookup fd (w_conns w) = Some x /\ sc_out x = true
+  | EvOut fd _ => exists x, alookup fd (w_conns w) = Some x /\ sc_out x = true
   end.
 
 Lemma inv_update w toks fd x y toks' clients' :
@@ -349,7 +351,7 @@ Theorem handle_ok w toks e :
                  /\ w_nextg w <= w_nextg w')%nat
   \/ handle_event w e = inr EOverflow.
 Proof.
-  intros HI Hev Hk. destruct e as [fd|fd|fd|nf|]; [| | | |congruence]; cbn [evt_ok] in Hev; cbn [Server.handle_event].
+  intros HI Hev Hk. destruct e as [fd|fd|fd kk|nf|]; [| | | |congruence]; cbn [evt_ok] in Hev; cbn [Server.handle_event].
   - (* hang-up *)
     destruct Hev as (x & HL). rewrite HL. left. do 2 eexists. split; [reflexivity|].
     split; [|split; [reflexivity|cbn; lia]]. cbn [ytoks map app]. unfold set_conn.
@@ -392,7 +394,7 @@ Proof.
     pose proof (inv_cc _ _ HI _ _ HL) as Hok.
     assert (Hs : sc_st x = AwaitOut \/ sc_st x = SClosed).
     { destruct Hok as [Hst _]. unfold st_ok in Hst. destruct (sc_st x); auto. destruct Hst; congruence. }
-    destruct (cc_write_facts x (k_can_receive (client_of w (sc_client x))) Hok Hs)
+    destruct (cc_write_facts x (k_can_receive (client_of w (sc_client x))) kk Hok Hs)
       as (y & sent & HW & Hg & Hc & Hinfl & Hio & Hmid & HC).
     rewrite HW. left. do 2 eexists. split; [reflexivity|]. split; [|split; [reflexivity|cbn; lia]].
     cbn [ytoks map app]. unfold set_client, set_conn.
@@ -477,17 +479,17 @@ Qed.
 (* ---------- a whole readiness batch, in any order ---------- *)
 Inductive ekey := KKill | KListen | KConn (fd : nat).
 Definition ev_key (e : event) : ekey :=
-  match e with EvKill => KKill | EvListener _ => KListen | EvHup fd | EvIn fd | EvOut fd => KConn fd end.
+  match e with EvKill => KKill | EvListener _ => KListen | EvHup fd | EvIn fd | EvOut fd _ => KConn fd end.
 
 Definition touched (e : event) (fd' : nat) : Prop :=
-  match e with EvKill => False | EvListener nf => fd' = nf | EvHup fd | EvIn fd | EvOut fd => fd' = fd end.
+  match e with EvKill => False | EvListener nf => fd' = nf | EvHup fd | EvIn fd | EvOut fd _ => fd' = fd end.
 
 (* C09_noninterference: handling an event leaves every other connection untouched *)
 Lemma handle_frame w e w' ys :
   handle_event w e = inl (w', ys) ->
   w_killed w' = w_killed w /\ forall fd', ~ touched e fd' -> alookup fd' (w_conns w') = alookup fd' (w_conns w).
 Proof.
-  destruct e as [fd|fd|fd|nf|]; cbn [Server.handle_event touched].
+  destruct e as [fd|fd|fd kk|nf|]; cbn [Server.handle_event touched].
   - destruct (alookup fd (w_conns w)); [|discriminate]. intros H; inversion H; subst; cbn. split; auto.
     intros fd' Hn. apply alookup_update_other. congruence.
   - destruct (alookup fd (w_conns w)) as [x|]; [|discriminate].
@@ -508,7 +510,7 @@ Lemma evt_ok_frame w e w' ys e' :
   (forall nf nf', e = EvListener nf -> e' = EvListener nf' -> False) -> evt_ok w' e'.
 Proof.
   intros Hev H Hev' Hk _. destruct (handle_frame _ _ _ _ H) as [Hkill Hfr].
-  destruct e' as [fd'|fd'|fd'|nf'|]; cbn [evt_ok] in *.
+  destruct e' as [fd'|fd'|fd' kk'|nf'|]; cbn [evt_ok] in *.
   - destruct Hev' as (x & HL). exists x. rewrite Hfr; auto.
     intros T. destruct e; cbn in *; try tauto; subst; try congruence.
   - destruct Hev' as (x & HL & Ho). exists x. rewrite Hfr; auto.
@@ -642,7 +644,7 @@ Proof.
   - destruct (sc_st x) eqn:S0.
     + destruct Hok as [Hst HC]. repeat (split; [reflexivity|]). split; [|split; [reflexivity|exact HC]].
       unfold st_mid, st_ok in *. rewrite S0 in *. (split; [|split]); intros; try congruence; tauto.
-    + destruct (cc_write_facts x b Hok (or_introl S0)) as (y & s & HW & Hg & Hc & Hi & Ho & Hmid & HC).
+    + destruct (cc_write_facts x b 0 Hok (or_introl S0)) as (y & s & HW & Hg & Hc & Hi & Ho & Hmid & HC).
       rewrite HW.
       (* y satisfies the interest invariant again unless it became AwaitIn with interest OUT; the loop
          only continues while it is AwaitOut *)
